@@ -176,6 +176,7 @@ def run(ctx: Ctx):
 
     # ---- S2d the utterance sampler reports as many indices as it yields (non-bucketed loaders compute len() from it) ----
     _sampler_len(ctx, rel)
+    _deprecated_arguments_fall_back_on_the_parameter_they_name(ctx)
     plumbing(ctx, "S1")
     return dict(
         explanation=(
@@ -867,6 +868,43 @@ def _bucket_param_domain(ctx: Ctx, bp, rel: str):
            f"`{u(badd[0]) if badd else ''}` divides by a bucket's length bound, which is 0 when the shortest utterances are empty: "
            f"size_batch_by_length=True then raises ZeroDivisionError at construction", rel, badd[0].lineno if badd else bp.line,
            sample=[u(x) for x in divs])
+
+
+def _deprecated_arguments_fall_back_on_the_parameter_they_name(ctx: Ctx):
+    """S5: the data sets and loaders still accept some settings as (deprecated) arguments; `if x is not None: <warn: use params.<p>> else:
+    x = params.<q>`. The parameter the warning sends the user to and the one the fallback reads are the same (`p == q`): reading a
+    sibling (the right context from `context_left`) gives every window the wrong width whenever the two settings differ - with the
+    defaults (equal) nothing shows."""
+    import re
+    col, pkg = ctx.col, ctx.pkg
+    n_sites = 0
+    for modname in ("_datasets", "_dataloaders"):
+        mi = pkg.module(modname)
+        for f in pkg.all_functions():
+            if f.module is not mi:
+                continue
+            for n in own_nodes(f.node):
+                if not (isinstance(n, ast.If) and n.orelse and isinstance(n.test, ast.Compare) and len(n.test.ops) == 1
+                        and isinstance(n.test.ops[0], (ast.IsNot, ast.Is)) and isinstance(n.test.comparators[0], ast.Constant)
+                        and n.test.comparators[0].value is None and isinstance(n.test.left, ast.Name)):
+                    continue
+                given, fallback = (n.body, n.orelse) if isinstance(n.test.ops[0], ast.IsNot) else (n.orelse, n.body)
+                x = n.test.left.id
+                named = set()
+                for c in ast.walk(ast.Module(body=list(given), type_ignores=[])):
+                    if isinstance(c, ast.Call) and call_name(c).endswith("warn") and c.args:
+                        txt = "".join(k.value for k in ast.walk(c.args[0]) if isinstance(k, ast.Constant) and isinstance(k.value, str))
+                        named |= set(re.findall(r"params\.([A-Za-z_][A-Za-z_0-9]*)", txt))
+                reads = [v.attr for st in fallback if isinstance(st, ast.Assign) and any(isinstance(t_, ast.Name) and t_.id == x for t_ in st.targets)
+                         for v in [st.value] if isinstance(v, ast.Attribute) and isinstance(v.value, ast.Name) and v.value.id == "params"]
+                if len(named) != 1 or len(reads) != 1:
+                    continue
+                n_sites += 1
+                col.ob("G5", "S5", f"{mi.relname}::{f.qualname}::deprecated-argument({x})-falls-back-on-params.{sorted(named)[0]}", reads[0] in named,
+                       f"without the deprecated argument `{x}` the value is read from params.{reads[0]}, while the deprecation warning names "
+                       f"params.{sorted(named)[0]} as its replacement: the setting the user configures is not the one that is used", mi.relname, n.lineno,
+                       sample=dict(argument=x, named=sorted(named), read=reads[0]))
+    col.floor("deprecated_argument_fallbacks", n_sites, 2)
 
 
 def _mutants():
